@@ -17,6 +17,8 @@ type Clause struct {
 }
 
 type Contract struct {
+	Owns          []string // `owns Type.field ...`: fields this (goroutine) body may touch without the mutex (protocol-owned)
+	NoLockExit    bool     // do not generate the automatic lock-balance assertion at returns
 	Locked        bool   // `locked`: the function is entered (and left) with the UI mutex held
 	Arith2        string // "heapwf": state heap well-formedness (all stored refs < alloc) before every allocation
 	Deterministic bool
@@ -86,7 +88,21 @@ type BoxInv struct {
 	Pkg, Type, Pred, Where string
 }
 
+// Guarded: `//@ guarded T` -- every field of struct type T may be read or written only while the ghost flag
+// `held` is set (the goroutine holds the UI mutex), or on an object allocated in the same activation.
+type Guarded struct {
+	Pkg, Type, Where string
+}
+
+// Monitor: `//@ monitor T.field pred` -- the mutex in that field protects pred(object): it may be assumed right
+// after Lock() and must be re-established before every Unlock().
+type Monitor struct {
+	Pkg, Type, Field, Pred, Where string
+}
+
 type ContractSet struct {
+	Monitors   []Monitor
+	Guardeds   []Guarded
 	BoxInvs    []BoxInv
 	GlobalInvs []GlobalInv
 	TypeInvs   []TypeInv
@@ -254,6 +270,28 @@ func (cs *ContractSet) loadFile(path, repo string) {
 				cs.errf("%s: duplicate contract for %s", at, cur.Key)
 			}
 			cs.Funcs[cur.Key] = cur
+		case "monitor":
+			flush()
+			tf, pn := splitWord(rest)
+			parts := strings.SplitN(tf, ".", 2)
+			if len(parts) == 2 {
+				cs.Monitors = append(cs.Monitors, Monitor{pkg, parts[0], parts[1], pn, at})
+			} else {
+				cs.errf("%s: monitor Type.field pred expected", at)
+			}
+		case "guarded":
+			flush()
+			cs.Guardeds = append(cs.Guardeds, Guarded{pkg, strings.TrimSpace(rest), at})
+		case "owns":
+			flush()
+			if cur != nil {
+				cur.Owns = append(cur.Owns, strings.Fields(rest)...)
+			}
+		case "nolockexit":
+			flush()
+			if cur != nil {
+				cur.NoLockExit = true
+			}
 		case "boxinv":
 			flush()
 			tn, pn := splitWord(rest)
